@@ -128,8 +128,12 @@ def check_path(pt, path, st):
         f = st.attach_file or []
         text = "".join(p if isinstance(p, str) else "{" + tagof(p) + "}" for p in f)
         if pt.db_path:
-            if "db_path" not in text or "database" not in text or not text.endswith(".db"):
+            names = [p for p in f if not isinstance(p, str) and "database" in tagof(p)]
+            if "db_path" not in text or not names or not text.endswith(".db"):
                 probs.append((f"ATTACH file {text!r} is not <db_path>/<DATABASE>.db", None))
+            elif not all(isinstance(p, Sym) and p.origin and p.origin[0] == "upper" for p in names):
+                probs.append((f"ATTACH file {text!r} is named after the database argument as typed, not the upper-cased name the database is "
+                              f"attached as (and that CREATE DATABASE / a connect with another spelling use): the existing file is not found", None))
         elif text != ":memory:":
             probs.append((f"ATTACH file {text!r} is not ':memory:' without db_path", None))
     elif st.bootstrap and not pt.db0:
@@ -214,7 +218,14 @@ def _bind_call(call: ast.Call, params: list[str]) -> dict:
     return out
 
 
+def rule_connect_race(ctx):
+    """C14.c = C19.a: concurrent connects that auto-create the same objects (connection order is part of C14's quantifier)."""
+    from .c19 import rule_check_then_create
+    rule_check_then_create(ctx)
+
+
 RULES = [
+    ("C14.c", rule_connect_race, ("quick", "thorough")),
     ("C14.a", rule_typestate, ("quick", "thorough")),
     ("C14.b", rule_forwarding, ("quick", "thorough")),
 ]
